@@ -723,6 +723,14 @@ func (ξ *BlindCorrectFormProof) Bytes() []byte {
 }
 
 func (ξ *BlindCorrectFormProof) Verify(c *math.Curve, n int, a, b []*math.G1, cm *math.G1, g *math.G1, g0 *math.G1, h *math.G1, u *math.G1, gs []*math.G1) error {
+	if len(ξ.x) != n || len(ξ.y) != n || len(ξ.d) != n || len(ξ.f) != n {
+		return fmt.Errorf("proof should have %d components but has |x|=%d, |y|=%d, |d|=%d, |f|=%d", n, len(ξ.x), len(ξ.y), len(ξ.d), len(ξ.f))
+	}
+
+	if len(a) != n || len(b) != n {
+		return fmt.Errorf("ciphertext should have %d components but has |a|=%d, |b|=%d", n, len(a), len(b))
+	}
+
 	digest := randomOracleForBlindingProof(n, ξ.d, ξ.f, ξ.s, a, b, cm, g, g0, h, u, gs)
 	e := c.HashToZr(digest)
 
